@@ -118,7 +118,12 @@ def oracle(ctx, cases):
                 ctx.count("fact_eval_failed:" + type(ex).__name__)
             if ok is False:
                 ctx.violation("the fact stated by the error is false of the reported sub-value", **info)
-            msg = e.format(fmt)
+            try:
+                msg = e.format(fmt)
+            except Exception as ex:  # noqa: BLE001
+                ctx.violation("rendering a returned error raised %s (no message names its path)" % type(ex).__name__,
+                              exception=repr(ex), **info)
+                continue
             # rendering must not disturb the error: same message again, path still resolves to the same sub-value
             try:
                 again = e.format(fmt)
@@ -163,12 +168,17 @@ def run(ctx):
     for s, w in valcases.scalar_corpus() + valcases.schema_batch(ctx, ctx.n(80, 600), customs=True):
         cases += valcases.value_cases(ctx, s, w, perturb=ctx.n(14, 40), zoo=ctx.n(2, 6), inject=ctx.n(6, 14))
     cases += valcases.list_form_value_cases(ctx)
+    from .. import hostile
+    cases += hostile.defaulting_dict_cases()
+    cases += hostile.touchy_cases()
     for c in cases:
         valcorr.run_real(c)
         valcorr.prepare(c)
     ctx.count("multi_sibling_nested_cases", sum(1 for c in cases if multi_sibling_nested(c.value)))
     ctx.count("skipped_unencodable", sum(1 for c in cases if c.skip))
     oracle(ctx, cases)
+    from .. import limits
+    limits.identity_key_probe(ctx)
     dis = valcorr.compare(cases, ctx, view="errors")
     for c, detail in dis[:10]:
         ctx.breakage("correspondence", "error multiset (kind, path, actual, parameter) differs between model and code",
